@@ -162,4 +162,25 @@ func runC11(rep *TReport, raw json.RawMessage) {
 	} else if r.AllowedJ && r.Err == "none" && !success {
 		rep.Notes = append(rep.Notes, "allowed redirect refused: "+requested+" registered "+strings.Join(regs, " "))
 	}
+	// the pushed-authorization endpoint takes the same redirect_uri: it may accept it only if the authorization
+	// endpoint may redirect there, and a plain-http target only on loopback / localhost hosts
+	if r.Mode == "default" && r.Err == "none" && r.RType == "code" {
+		preq := postReq("/par")
+		pf := url.Values{}
+		for k, v := range q {
+			if k != "client_id" {
+				pf[k] = v
+			}
+		}
+		preq.SetBasicAuth("A", ClientSecrets["A"])
+		finishPost(preq, pf)
+		par, perr := w.Provider.NewPushedAuthorizeRequest(ctx, preq)
+		if perr == nil {
+			_, perr = w.Provider.NewPushedAuthorizeResponse(ctx, par, NewSess(Subject))
+		}
+		rep.Checks++
+		if perr == nil && !((r.AllowedJ || r.UndetJ) && r.CodeOKJ) {
+			rep.Mismatches = append(rep.Mismatches, TMismatch{Row: raw, Field: "par_accepts_unallowed_or_insecure_redirect", Exp: "refused", Obs: "request_uri issued for " + requested})
+		}
+	}
 }
